@@ -1827,28 +1827,13 @@ func getCertificateNotAfter(b *backend, data *inputBundle, caSign *certutil.CAIn
 	} else {
 		notAfter = time.Now().Add(ttl)
 	}
-	if caSign != nil && notAfter.After(caSign.Certificate.NotAfter) {
+	if caSign != nil {
 		// If it's not self-signed, verify that the issued certificate
 		// won't be valid past the lifetime of the CA certificate, and
-		// act accordingly. This is dependent based on the issuer's
-		// LeafNotAfterBehavior argument.
-		switch caSign.LeafNotAfterBehavior {
-		case certutil.PermitNotAfterBehavior:
-			// Explicitly do nothing.
-		case certutil.TruncateNotAfterBehavior:
-			// Error out if notAfter is in the past
-			if notAfter.Before(time.Now()) {
-				return time.Time{}, warnings, errutil.UserError{Err: fmt.Sprintf(
-					"cannot satisfy request, as NotAfter date %s is in the past", notAfter,
-				)}
-			}
-			notAfter = caSign.Certificate.NotAfter
-		case certutil.ErrNotAfterBehavior:
-			fallthrough
-		default:
-			return time.Time{}, warnings, errutil.UserError{Err: fmt.Sprintf(
-				"cannot satisfy request, as TTL would result in notAfter of %s that is beyond the expiration of the CA certificate at %s", notAfter.UTC().Format(time.RFC3339Nano), caSign.Certificate.NotAfter.UTC().Format(time.RFC3339Nano),
-			)}
+		// act accordingly.
+		notAfter, err = applyLeafNotAfterBehavior(caSign, notAfter)
+		if err != nil {
+			return time.Time{}, warnings, err
 		}
 	}
 
@@ -1858,6 +1843,37 @@ func getCertificateNotAfter(b *backend, data *inputBundle, caSign *certutil.CAIn
 	}
 
 	return notAfter, warnings, nil
+}
+
+// applyLeafNotAfterBehavior applies the issuer's LeafNotAfterBehavior
+// argument to a certificate's Not After which is beyond the expiration of the
+// issuer's certificate: it is returned as is (permit), replaced with the
+// issuer's Not After (truncate) or refused (err).
+func applyLeafNotAfterBehavior(caSign *certutil.CAInfoBundle, notAfter time.Time) (time.Time, error) {
+	if !notAfter.After(caSign.Certificate.NotAfter) {
+		return notAfter, nil
+	}
+
+	switch caSign.LeafNotAfterBehavior {
+	case certutil.PermitNotAfterBehavior:
+		// Explicitly do nothing.
+	case certutil.TruncateNotAfterBehavior:
+		// Error out if notAfter is in the past
+		if notAfter.Before(time.Now()) {
+			return time.Time{}, errutil.UserError{Err: fmt.Sprintf(
+				"cannot satisfy request, as NotAfter date %s is in the past", notAfter,
+			)}
+		}
+		notAfter = caSign.Certificate.NotAfter
+	case certutil.ErrNotAfterBehavior:
+		fallthrough
+	default:
+		return time.Time{}, errutil.UserError{Err: fmt.Sprintf(
+			"cannot satisfy request, as TTL would result in notAfter of %s that is beyond the expiration of the CA certificate at %s", notAfter.UTC().Format(time.RFC3339Nano), caSign.Certificate.NotAfter.UTC().Format(time.RFC3339Nano),
+		)}
+	}
+
+	return notAfter, nil
 }
 
 func convertRespToPKCS8(resp *logical.Response) error {
